@@ -130,7 +130,12 @@ pub fn run(sc_threads: &[Vec<Value>], miri_seed: u64, rate: &str, sim_dir: &Path
         _ => {
             let se = String::from_utf8_lossy(&out.stderr);
             let key: Vec<&str> = se.lines().filter(|l| l.contains("error") || l.contains("Undefined Behavior") || l.contains("deadlock") || l.contains("panicked")).take(4).collect();
-            MiriRun { json: None, error: Some(format!("exit {:?}: {}", out.status.code(), key.join(" / "))) }
+            // something the interpreter cannot execute (FFI, mmap, inline asm …) says nothing about
+            // the property: such a scenario is skipped, not judged
+            let unsupported = se.contains("unsupported operation") || se.contains("is not supported") || se.contains("can't call foreign function") || se.contains("cannot call foreign function");
+            let verdict_worthy = se.contains("Undefined Behavior") || se.contains("Data race") || se.contains("data race") || se.contains("deadlock");
+            let prefix = if unsupported && !verdict_worthy { "unsupported: " } else { "" };
+            MiriRun { json: None, error: Some(format!("{}exit {:?}: {}", prefix, out.status.code(), key.join(" / "))) }
         }
     }
 }
